@@ -72,7 +72,25 @@ def episode(prop, mon, subj, rng, nsteps, acc):
     p_reset = rng.choice([0.0, 0.004, 0.02])
     p_look = {"C13": 0.5, "C04": 0.15, "C06": 0.3}.get(prop, 0.2)
     stop_on_end = rng.random() < 0.5
+    p_query = rng.choice([0.0, 0.01, 0.05])
     for k in range(nsteps):
+        if (k == 0 and rng.random() < 0.5) or rng.random() < p_query:
+            # informational queries between the steps: they answer questions
+            # about the scenario or the state and must leave the dynamics
+            # alone (what follows is monitored as always)
+            env = subj.env
+            try:
+                env.get_minimum_hops()
+                env.get_score_upper_bound()
+                env.goal_reached()
+                if subj.modes["flat_actions"]:
+                    env.get_action_mask()
+                env.scenario.get_description()
+            except Exception as e:      # noqa
+                acc.violation("informational_query_raised",
+                              "informational_query_raised:" +
+                              type(e).__name__, str(e)[:200], None)
+            acc.count("informational_queries_between_steps")
         cur = subj.current()
         S = subj.lay.status(cur.tensor)
         i = pol.choose(S)
